@@ -126,7 +126,8 @@ def check_refile(res, prop, cm, roles, m, b):
             bp = [e for e in effs if e.kind == 'BACKPTR' and roles.backptrs.get(e.field) == aux]
             if add[0].ent.kind != 'NEW' or add[0].ent.arg != bind.res[1]:
                 ok, why = False, 'appended ttl node does not point at the newly bound key'
-            elif len(bp) != 1 or bp[0].ent.kind != 'NEW' or bp[0].ent.arg != bind.res[1] or not is_last_of(bp[0].val, aux):
+            elif len(bp) != 1 or bp[0].ent.kind != 'NEW' or bp[0].ent.arg != bind.res[1] or \
+                    not (is_last_of(bp[0].val, aux) or bp[0].val == add[0].res):     # prev(end()) after the append, or list::emplace's result
                 ok, why = False, 'stored ttl position of the new key is not the appended node'
     elif len(dls) != 1:
         ok, why = False, 'the entry\'s deadline is written %d times (expected once)' % len(dls)
@@ -223,6 +224,13 @@ def check_purge_shape(res, prop, cm, roles, m, top):
             if not ok:
                 V(res, prop, 'R-PURGE-SHAPE', cm, m.key(), why, lp.site, 'purge in %s: %s' % (m.key(), why))
             continue
+        sweeps = [ops.sweep_bound(s) for s in segs if s.status == 'continue']
+        if sweeps and all(x is not None for x in sweeps) and not any(c[0] in ('EXPIRED', 'EXPIRED_STRICT') for s in segs for c in s.conds):
+            ok, why = check_scan_sweep(top, i, sweeps, aux, clocks)
+            res.ob('R-PURGE-SHAPE', ok=ok)
+            if not ok:
+                V(res, prop, 'R-PURGE-SHAPE', cm, m.key(), why, lp.site, 'purge in %s: %s' % (m.key(), why))
+            continue
         # loop variable starts at begin(): last LOCAL write before the loop to a variable that the loop advances
         pos = top.order.index(('loop', i))
         lvname = None
@@ -280,6 +288,81 @@ def check_purge_shape(res, prop, cm, roles, m, top):
         res.ob('R-PURGE-SHAPE', ok=ok)
         if not ok:
             V(res, prop, 'R-PURGE-SHAPE', cm, m.key(), why, lp.site, 'purge in %s: %s' % (m.key(), why))
+
+
+def check_scan_sweep(top, i, sweeps, aux, clocks):
+    """two-pass purge: (1) an effect-free scan from the head while now >= deadline(node) leaves B at the first live node;
+    (2) a sweep from the head up to B removes each visited node's key; (3) [head, B) is erased from the ttl list"""
+    lp, segs = top.loops[i]
+    var = sweeps[0][0]
+    bkey = sweeps[0][1]
+    if any(x != (var, bkey) for x in sweeps):
+        return False, 'sweep iterations disagree about their bound'
+    bounds = ops.scan_boundaries(top)
+    slp, ssegs = bounds[bkey]
+    spos = next(p for p, (k2, j) in enumerate(top.order) if k2 == 'loop' and top.loops[j][0] is slp)
+    wpos = top.order.index(('loop', i))
+    if spos > wpos:
+        return False, 'the expired prefix is swept before it is measured'
+
+    def init_of(name, before):
+        v = None
+        for k2, j in top.order[:before]:
+            if k2 == 'eff' and top.effects[j].kind == 'LOCAL' and top.effects[j].loc[1] == name:
+                v = top.effects[j]
+        return v
+    si = init_of(bkey[0], spos)
+    if si is None or not is_begin_of(resolve_local(top, si.val, spos), aux):
+        return False, 'the scan for the first live node does not start at the head of the ttl list'
+    for s in ssegs:
+        ex = [c for c in s.conds if c[0] in ('EXPIRED', 'EXPIRED_STRICT')]
+        atend = [c for c in s.conds if c[0] == 'IT_AT_END']
+        if s.status == 'continue':
+            if not (ex and ex[0][0] == 'EXPIRED' and ex[0][2] is True and ex[0][1][1] in clocks):
+                return False, 'the scan passes a node without the inclusive test now >= deadline on that node'
+        else:
+            if not ((ex and ex[0][0] == 'EXPIRED' and ex[0][2] is False) or (atend and atend[-1][2] is True and not ex)):
+                return False, 'the scan stops although the current node is expired'
+    for s in top.loop_exits.get(id(slp), []):
+        ex = [c for c in s.conds if c[0] in ('EXPIRED', 'EXPIRED_STRICT')]
+        atend = [c for c in s.conds if c[0] == 'IT_AT_END']
+        if not ((atend and atend[-1][2] is True and not ex) or (ex and ex[0][0] == 'EXPIRED' and ex[0][2] is False)):
+            return False, 'the scan loop exits for a reason other than end-of-list or a live node'
+    wi = init_of(var, wpos)
+    if wi is None or not is_begin_of(resolve_local(top, wi.val, wpos), aux):
+        return False, 'the sweep does not start at the head of the ttl list'
+    for s in segs:
+        if s.status == 'exit':
+            continue
+        if s.status != 'continue':
+            return False, 'the sweep leaves early'
+        unb = s.effs('UNBIND')
+        if len(unb) != 1 or unb[0].ent.kind != 'VIA' or unb[0].ent.arg[0] != 'LV' or unb[0].ent.arg[1] != var:
+            return False, 'a sweep iteration does not remove exactly the visited node\'s key'
+        adv = [e for e in s.effects if e.kind == 'LOCAL' and e.loc[1] == var]
+        if not (len(adv) == 1 and isinstance(adv[0].val, tuple) and adv[0].val[0] == 'adv' and adv[0].val[1] == 1):
+            return False, 'the sweep does not advance node by node'
+    er = [e for e in top.effects if e.kind == 'AUX_ERASE_RANGE' and e.aux == aux]
+    if not er:
+        # nothing to erase when the path established that the boundary is still the head (B == begin(), distance(begin, B) == 0)
+        for c in top.conds:
+            if c[0] == 'IT_AT_BEGIN' and c[2] is True and isinstance(c[1][0], tuple) and c[1][0][:3] == ('lv', bkey[0], bkey[1]):
+                return True, None
+            raw = c[4]
+            if c[0] == 'OTHER' and isinstance(raw, tuple) and raw[0] == 'cmp' and raw[1] in ('==', '!='):
+                for x, y in ((raw[2], raw[3]), (raw[3], raw[2])):
+                    if isinstance(x, tuple) and x and x[0] in ('fncall', 'cast') and y == ('int', 0):
+                        d = x[2] if x[0] == 'cast' else x
+                        if isinstance(d, tuple) and d[0] == 'fncall' and d[1] == 'distance' and len(d[2]) == 2 and \
+                                is_begin_of(resolve_local(top, d[2][0], None), aux) and isinstance(d[2][1], tuple) and d[2][1][:3] == ('lv', bkey[0], bkey[1]):
+                            if (raw[1] == '==') == bool(c[5]):
+                                return True, None
+        return False, 'visited ttl nodes are not erased'
+    e = er[0]
+    if not (is_begin_of(resolve_local(top, e.first, None), aux) and isinstance(e.last, tuple) and e.last[0] == 'lv' and e.last[1] == bkey[0]
+            and e.last[2] == bkey[1]):
+        return False, 'the erased ttl range is not [head, first live node)'
+    return True, None
 
 
 def resolve_local(top, t, pos):
@@ -673,6 +756,15 @@ def check_purge_tally(res, prop, cm, roles, m, top):
             good = [e for e in incs if ops.is_increment(e, name)]
             if len(incs) != want or len(good) != want:
                 ok = False
+    if not ok and pl and isinstance(r, tuple) and r:
+        # two-pass purge: every node of [head, B) loses exactly its key (R-PURGE-SHAPE), so distance(head, B) is the number purged
+        d = r[2] if r[0] == 'cast' else r
+        lp, segs = top.loops[pl[0]]
+        sw = [ops.sweep_bound(s) for s in segs if s.status == 'continue']
+        if isinstance(d, tuple) and d and d[0] == 'fncall' and d[1] == 'distance' and len(d[2]) == 2 and sw and all(x is not None for x in sw):
+            bkey = sw[0][1]
+            ok = (is_begin_of(resolve_local(top, d[2][0], None), roles.ttl_struct) and isinstance(d[2][1], tuple)
+                  and d[2][1][:3] == ('lv', bkey[0], bkey[1]))
     res.ob('R-CLEAN-TALLY', ok=ok)
     if not ok:
         V(res, prop, 'R-CLEAN-TALLY', cm, m.key(), 'returned count is not the number of purged entries', site_of_seg(top, m),
